@@ -9,6 +9,7 @@
 
 import ast
 import importlib
+import json
 import logging
 import marshal
 import math
@@ -332,12 +333,12 @@ class OperandNode(ASTNode):
             return 'None'
 
         elif self.subtype in ("TEXT", "ERROR") and len(self.value) > 2:
-            # if the string contains quotes, escape them
+            # emit as a python string literal, escaping quotes, backslashes...
             value = self.value
             if value.startswith('"') and value.endswith('"'):
                 value = value[1:-1]
-            value = value.replace('""', r'\"')
-            return f'"{value}"'
+            value = value.replace('""', '"')
+            return json.dumps(value, ensure_ascii=False)
 
         else:
             return self.value
